@@ -279,7 +279,11 @@ where
                         let loc_d_start = loc_d.1 + 1;
                         let loc_d_end = loc_d_start + (3 * (*data_len as usize)) - 1;
                         let data = if *data_len > 0 && loc_d_end < line.len() {
-                            hex_to_bytes(&line.as_str()[loc_d_start..loc_d_end])
+                            // (get: the announced length might end inside a multi-byte char)
+                            match line.as_str().get(loc_d_start..loc_d_end) {
+                                Some(hex) => hex_to_bytes(hex),
+                                None => None,
+                            }
                         } else {
                             None
                         };
@@ -367,7 +371,11 @@ where
                         let loc_d_start = loc_d.1 + 1;
                         let loc_d_end = loc_d_start + (3 * (*data_len as usize)) - 1;
                         let data = if *data_len > 0 && loc_d_end < line.len() {
-                            hex_to_bytes(&line.as_str()[loc_d_start..loc_d_end])
+                            // (get: the announced length might end inside a multi-byte char)
+                            match line.as_str().get(loc_d_start..loc_d_end) {
+                                Some(hex) => hex_to_bytes(hex),
+                                None => None,
+                            }
                         } else {
                             None
                         };
